@@ -182,7 +182,14 @@ impl Run {
         for (n, a) in extra {
             actions.add_action(n, a.get_copy());
         }
-        let executor = FsmExecutor::new_without_io_processor();
+        let mut executor = FsmExecutor::new_without_io_processor();
+        if ECMA_STRICT.load(std::sync::atomic::Ordering::Relaxed) {
+            // the ecmascript data model in the strict mode the project's W3C conformance
+            // configuration (test/w3c/test_config.json) uses
+            let mut o = std::collections::HashMap::new();
+            o.insert("datamodel:ecma:strict", String::new());
+            executor.set_global_options_from_arguments(&o);
+        }
         let session = fsm::start_fsm_with_data_and_finish_mode(
             fsm,
             actions,
@@ -309,6 +316,10 @@ impl Run {
         panicked
     }
 }
+
+/// start sessions with the executor option "datamodel:ecma:strict" (only meaningful in the
+/// full-feature build; the rfsm-expression and null data models ignore it)
+pub static ECMA_STRICT: std::sync::atomic::AtomicBool = std::sync::atomic::AtomicBool::new(false);
 
 #[derive(Clone, Debug, PartialEq, Eq, Hash, PartialOrd, Ord)]
 pub struct IdleState {
